@@ -237,20 +237,24 @@ Definition ln_mkres (o : op) (r : res) : res :=
   | _, _ => r
   end.
 
-Definition ln_mkdir_start (k : seccfg) (st : lstate) (c : lop) (p : str) : lstate * (lpc + res) :=
+(* Mkdir [R]: the name exists -> EEXIST (exactly what the specification answers in this state);
+   otherwise go on to the write-locked section *)
+Definition ln_mkdir_start (st : lstate) (c : lop) (p : str) : lstate * (lpc + res) :=
   match lookup (fst st) (normalize_path p) with
-  | Some _ => (st, inr (ln_mkres (snd c) (RErr (EW KExist))))
+  | Some _ => ln_atomic st c
   | None => (st, inl LnMkdirLocked)
   end.
 
+(* Mkdir [W]: check again and create.  Without the trailing setFileMode this IS the
+   specification's step; with it, the call goes on to look the name up once more. *)
 Definition ln_mkdir_locked (k : seccfg) (st : lstate) (c : lop) (p : str) (perm : Z) : lstate * (lpc + res) :=
-  let '(m1, r) := m_mkdir (lin_now (fst st)) p perm in
-  match r with
-  | ROk => if sc_mkdir_setmode k
-           then ((m1, snd st), inl (LnSetMode p (Z.lor (Z.land perm chmod_bits) mode_dir) ROk))
-           else ((m1, snd st), inr ROk)
-  | _ => ((m1, snd st), inr (ln_mkres (snd c) r))
-  end.
+  if sc_mkdir_setmode k then
+    let '(m1, r) := m_mkdir (lin_now (fst st)) p perm in
+    match r with
+    | ROk => ((m1, snd st), inl (LnSetMode p (Z.lor (Z.land perm chmod_bits) mode_dir) ROk))
+    | _ => ((m1, snd st), inr (ln_mkres (snd c) r))
+    end
+  else ln_atomic st c.
 
 Definition ln_sec (k : seccfg) (st : lstate) (c : lop) (pc : lpc) : lstate * (lpc + res) :=
   let m := lin_now (fst st) in
@@ -276,8 +280,8 @@ Definition ln_sec (k : seccfg) (st : lstate) (c : lop) (pc : lpc) : lstate * (lp
     | _ => ((m2, sl), inr r)
     end
   (* Mkdir: [R] check, [W] check again + create, then setFileMode looks the name up again *)
-  | LnStart, Mkdir p perm => ln_mkdir_start k st c p
-  | LnStart, MkdirAll p perm => ln_mkdir_start k st c p
+  | LnStart, Mkdir p perm => ln_mkdir_start st c p
+  | LnStart, MkdirAll p perm => ln_mkdir_start st c p
   | LnMkdirLocked, Mkdir p perm => ln_mkdir_locked k st c p perm
   | LnMkdirLocked, MkdirAll p perm => ln_mkdir_locked k st c p perm
   (* RemoveAll: [W] unregister from the parent, then one [W] section per key at or below *)
@@ -299,6 +303,16 @@ Definition ln_sec (k : seccfg) (st : lstate) (c : lop) (pc : lpc) : lstate * (lp
   (* every other method: one critical section *)
   | LnStart, _ => ln_atomic st c
   | _, _ => (st, inr RPanic)
+  end.
+
+(* the calls that the section table runs as (an unlocked pre-check that changes nothing, then)
+   ONE section that is the specification's step *)
+Definition ln_lin_ok (k : seccfg) (o : op) : bool :=
+  match o with
+  | OpenFile _ _ _ => negb (sc_open_split k)
+  | Mkdir _ _ | MkdirAll _ _ => negb (sc_mkdir_setmode k)
+  | RemoveAll _ => negb (sc_rmall_split k)
+  | _ => true
   end.
 
 (* histories of the section machine over the real specification state *)
